@@ -23,7 +23,7 @@ pub fn def() -> CheckDef {
 fn meta(_ctx: &Ctx) -> Meta {
     Meta {
         level: "exploration",
-        rule: "(a) signature headers synthesised by the harness encoder around real header + payload bytes: the product of OpenPGP tag {absent, string array with 0..3 base64 items, malformed / empty base64, wrong data types} x RSA / DSA / legacy-PGP tags {absent, binary, wrong type} x digest tags {none, correct, wrong} x verifier scripts {all accept, reject at call 1..4, all reject}; a recording implementation of the public Verifying trait logs every call (hash + length of the data, signature bytes); success is judged against the log: >= 1 call, no rejected call, every call handed exactly header (or header+payload for the legacy tag) bytes with a signature taken from the package, all recorded digests matching. (b) packages built and signed by the library with RSA-4096, protected RSA-3072, Ed25519 and ECDSA-P256 keys: every single-bit flip of the main header and of (a bounded part of) the payload plus seeded multi-byte edits; for gzip / zstd / xz / bzip2 payloads in addition every bit of the first 24 and last 16 bytes of the compressed stream (member / frame / stream headers and trailers) and bytes appended after the payload (zeros, text, an empty second member); run in worker processes with the real pgp verifier; a mutant that parses to a different value must not verify. distinct_nontrivial = distinct (shape, script) executions that returned Ok or had calls + distinct mutants that parsed to a changed value".into(),
+        rule: "(a) signature headers synthesised by the harness encoder around real header + payload bytes: the product of OpenPGP tag {absent, string array with 0..3 base64 items, malformed / empty base64, wrong data types} x RSA / DSA / legacy-PGP tags {absent, binary, wrong type} x digest tags {none, correct, wrong} x verifier scripts {all accept, reject at call 1..4, all reject}; a recording implementation of the public Verifying trait logs every call (hash + length of the data, signature bytes); success is judged against the log: >= 1 call, no rejected call, every call handed exactly header (or header+payload for the legacy tag) bytes with a signature taken from the package, all recorded digests matching. (b) packages built and signed by the library with RSA-4096, protected RSA-3072, Ed25519 and ECDSA-P256 keys: every single-bit flip of the main header and of (a bounded part of) the payload plus seeded multi-byte edits; for gzip / zstd / xz / bzip2 payloads in addition every bit of the first 24 and last 16 bytes of the compressed stream (member / frame / stream headers and trailers) and bytes appended after the payload (zeros, text, an empty second member); structurally consistent extensions of the signed main header (one more index entry with its data appended behind the signed content); run in worker processes with the real pgp verifier; a mutant that parses to a different value must not verify. distinct_nontrivial = distinct (shape, script) executions that returned Ok or had calls + distinct mutants that parsed to a changed value".into(),
         assumptions: vec!["pgp crate verifies correctly; signature blobs in part (a) are opaque to the recording verifier".into()],
         floor_distinct: 500,
     }
@@ -379,6 +379,39 @@ fn run(ctx: &Ctx, rep: &Report) {
                 let mut m = bytes.clone();
                 m.extend_from_slice(&tail);
                 push(m, format!("appended {} bytes after the payload", tail.len()), &mut cases);
+            }
+            // structurally consistent EXTENSIONS of the signed main header: one more index entry whose
+            // data is appended behind everything the header held when it was signed (entry count and
+            // data size raised accordingly) - what rpm's own CVE-2021-3421 was about
+            if !envelope_only {
+                let il = p.hdr.il as usize;
+                let dl = p.hdr.dl as usize;
+                let idx_end = p.hdr.start + 16 + 16 * il;
+                let store_end = idx_end + dl;
+                let exts: [(u32, u32, Vec<u8>, u32); 5] = [
+                    (tag::POSTIN, 6, b"echo injected\0".to_vec(), 1),
+                    (tag::PREIN, 6, b"rm -rf /\0".to_vec(), 1),
+                    (9999, 7, vec![0xab; 5], 5),
+                    (tag::PROVIDENAME, 8, b"injected-capability\0".to_vec(), 1),
+                    (tag::EPOCH, 4, vec![0, 0, 0, 9], 1),
+                ];
+                for (t, typ, data, count) in exts {
+                    let pad = if typ == 4 { (4 - dl % 4) % 4 } else { 0 };
+                    let mut m = Vec::with_capacity(bytes.len() + 64);
+                    m.extend_from_slice(&bytes[..p.hdr.start + 8]);
+                    m.extend_from_slice(&((il + 1) as u32).to_be_bytes());
+                    m.extend_from_slice(&((dl + pad + data.len()) as u32).to_be_bytes());
+                    m.extend_from_slice(&bytes[p.hdr.start + 16..idx_end]);
+                    m.extend_from_slice(&t.to_be_bytes());
+                    m.extend_from_slice(&typ.to_be_bytes());
+                    m.extend_from_slice(&((dl + pad) as u32).to_be_bytes());
+                    m.extend_from_slice(&count.to_be_bytes());
+                    m.extend_from_slice(&bytes[idx_end..store_end]);
+                    m.extend(std::iter::repeat(0u8).take(pad));
+                    m.extend_from_slice(&data);
+                    m.extend_from_slice(&bytes[store_end..]);
+                    push(m, format!("header extended by tag {t} type {typ}"), &mut cases);
+                }
             }
             // multi-byte edits in header and payload
             for _ in 0..if envelope_only { ctx.tier.pick(50, 2000) } else { ctx.tier.pick(500, 20_000) } {
